@@ -188,6 +188,20 @@ def decSel (j : Json) : R SelCfg := do
                 arches := (← (← fArr c "arches").mapM (·.getStr?)).map String.toList } : Component)
     return .std { components := comps }
 
+/-- {"root":p,"fs":[...],"names":[path],"oracle":[...],"valid":[bool per round],"retries":n} : the release-file stage in skel -/
+def opReleaseStage (j : Json) : R Json := do
+  let root ← decPath (← field j "root")
+  let fs ← decFS (← fArr j "fs")
+  let names ← (← fArr j "names").mapM decPath
+  let orc ← decOracle (← fArr j "oracle")
+  let valid ← (← fArr j "valid").mapM (·.getBool?)
+  let retries ← fNat j "retries"
+  let s0 : DState := { fs := fs, book := {}, orc := orc, reqs := [] }
+  let (res, rounds, s1) := releaseStage root names (fun i => valid.getD i false) (max 1 retries) 0 s0
+  return Json.mkObj [("result", match res with | none => Json.null | some e => Json.bool e), ("rounds", Json.num rounds),
+    ("book", encBook s1.book), ("fs", encFS s1.fs), ("obtained", Json.arr ((obtainedPaths s1.book).map encPath).toArray),
+    ("reqs", Json.arr (s1.reqs.reverse.map encPath).toArray)]
+
 /-- {"codenames":[[relfile...]...]} -/
 def opValidate (j : Json) : R Json := do
   let cns ← (← fArr j "codenames").mapM fun c => do (← c.getArr?).toList.mapM decRelFile
@@ -531,6 +545,7 @@ def dispatch (j : Json) : R Json := do
   | "parse_index" => opParseIndex j
   | "quote" => opQuote j
   | "validate" => opValidate j
+  | "release_stage" => opReleaseStage j
   | "metadata_files" => opMetadataFiles j
   | "allowed" => opAllowed j
   | "variant_paths" => opVariantPaths j
